@@ -246,8 +246,10 @@ class ResultMonitor(Monitor):
     name = "results"
 
     def check_indexing(self, r, meta) -> list:
-        """r[i,o] == r[i][o] == r.array[a,b] in the order of inputs/outputs, and
-        equal to the data the result was built from."""
+        """r[i,o] == r[i][o] == r.array[a,b] with a, b the positions in the
+        result's *own* inputs / outputs lists, and equal to the data the result
+        was built from (looked up by state, so an implementation is free to
+        order its lists as it likes)."""
         if meta["rkind"] == "samp":
             src = meta["src"]
             if {tuple(k): v for k, v in r.items()} != src:
@@ -256,17 +258,26 @@ class ResultMonitor(Monitor):
             for k, v in src.items():
                 if r[lw.State(list(k))] != v:
                     return [self.v({"kind": "sampling_getitem"}, str(k))]
-            if [tuple(x) for x in r.outputs] != list(src.keys()):
-                return [self.v({"kind": "sampling_outputs_order"}, "")]
+            outs = [tuple(x) for x in r.outputs]
+            if sorted(outs) != sorted(src.keys()) or len(outs) != len(src):
+                return [self.v({"kind": "sampling_outputs_list"},
+                               f"outputs {sorted(outs)} vs counted states "
+                               f"{sorted(src.keys())}")]
             return []
         arr = r.array
         ins, outs = r.inputs, r.outputs
         if arr.shape != (len(ins), len(outs)):
             return [self.v({"kind": "array_shape"}, f"{arr.shape}")]
         src = meta.get("src")
-        if [tuple(x) for x in ins] != meta["ins"] or \
-                [tuple(x) for x in outs] != meta["outs"]:
-            return [self.v({"kind": "inputs_outputs_lists_changed"}, "")]
+        built = None
+        if src is not None:
+            built = {(i, o): src[a, b] for a, i in enumerate(meta["ins"])
+                     for b, o in enumerate(meta["outs"])}
+        if sorted(tuple(x) for x in ins) != sorted(meta["ins"]) or \
+                sorted(tuple(x) for x in outs) != sorted(meta["outs"]):
+            return [self.v({"kind": "inputs_outputs_lists_changed"},
+                           "the result's input / output lists no longer hold "
+                           "the states it was built with")]
         for a, i in enumerate(ins):
             for b, o in enumerate(outs):
                 v1 = r[i, o]
@@ -275,9 +286,9 @@ class ResultMonitor(Monitor):
                 if not (v1 == v2 == v3) and not (np.isnan(v1) and np.isnan(v3)):
                     return [self.v({"kind": "index_inconsistent"},
                                    f"r[{i},{o}]={v1}, r[i][o]={v2}, array={v3}")]
-                if src is not None and v3 != src[a, b]:
+                if built is not None and v3 != built[(tuple(i), tuple(o))]:
                     return [self.v({"kind": "value_not_as_built"},
-                                   f"[{a},{b}] {v3} vs {src[a, b]}")]
+                                   f"[{i},{o}] {v3} vs {built[(tuple(i), tuple(o))]}")]
         return []
 
     def post(self, op, out, before, after):
@@ -342,7 +353,7 @@ class ResultMonitor(Monitor):
         all_out = set()
         for row in exp.values():
             all_out |= set(row)
-        if [tuple(x) for x in m.inputs] != meta["ins"]:
+        if sorted(tuple(x) for x in m.inputs) != sorted(meta["ins"]):
             return [self.v({**sig, "kind": "mapped_inputs_changed"}, "")]
         if set(tuple(x) for x in m.outputs) != all_out or \
                 len(m.outputs) != len(all_out):
